@@ -151,7 +151,8 @@ def argv_strategy(draw, big=False):
             + ([num(round(0.005 * lam, 4))] if draw(st.booleans()) else []) + ([num(round(0.06 * lam, 4))] if draw(st.integers(0, 3)) == 0 else []))
     for i in range(draw(st.sampled_from([0, 0, 0, 1, 2]))):
         kind = draw(st.sampled_from(['--geo-rotate', '--geo-translate']))
-        flds = [num(float(i + 1))]
+        # equal sort keys are legitimate: such transformations are applied in the order given
+        flds = [num(float(i + 1) if draw(st.integers(0, 2)) else draw(st.sampled_from([1.0, 9.0, 0.0])))]
         if kind == '--geo-rotate':
             flds += [num(0.0), num(0.0), num(draw(st.sampled_from([30.0, 90.0, -45.0])))] if ground != 'free' else [num(round(draw(st.floats(-90, 90)), 2)) for _ in range(3)]
         else:
